@@ -2,7 +2,7 @@
 from . import flow_send as fs
 
 RULE = ("case = [new(client|server, remote limits, send window)] [set_params remembered] early application ops "
-        "(open/write/finish/reset on local streams, transmissions, losses, set_send_window, poll; sizes around the "
+        "(open/write/finish/reset on local streams, transmissions, Retries, set_send_window, poll; sizes around the "
         "remembered credit so that streams get blocked and the send window fills) "
         "[20 new parameters] = zero_rtt_rejected + set_params on the state under test AND creation of a fresh twin "
         "with the same parameters; afterwards the same application ops / credit frames / acknowledgements are applied "
@@ -24,6 +24,8 @@ def gen_case(rng):
     L.params(p0)
     for _ in range(rng.range(0, 18)):
         ops.append(fs.app_op(rng, L, True))
+        if rng.chance(1, 30):
+            ops += fs.lone_fin(rng, L)
     k = rng.below(6)
     if k == 0:
         p1 = list(p0)
@@ -37,7 +39,9 @@ def gen_case(rng):
     L.restart()
     L.params(p1)
     for _ in range(rng.range(4, 30)):
-        if rng.chance(3, 5):
+        if rng.chance(1, 12):
+            ops += fs.remote_stream(rng, L)
+        elif rng.chance(3, 5):
             ops.append(fs.app_op(rng, L, False))
         else:
             ops.append(fs.frame_op(rng, L))
